@@ -1904,7 +1904,7 @@ fn main() {
     ctx.run_prop("compactsize-random", arb_counter, tier.pick(200_000, 5_000_000), |v| compact_check(*v));
 
     // (c) node / entry round trip
-    ctx.run_prop("node-roundtrip", arb_node_case, tier.pick(600_000, 20_000_000), |c| match c.ver {
+    ctx.run_prop("node-roundtrip", arb_node_case, tier.pick(2_000_000, 20_000_000), |c| match c.ver {
         1 => node_roundtrip::<V1>(c),
         2 => node_roundtrip::<V2>(c),
         _ => node_roundtrip::<V3>(c),
@@ -1913,7 +1913,7 @@ fn main() {
     ctx.require_label_fraction("node-roundtrip", "v3", 0.2);
 
     // (d) byte fuzz
-    ctx.run_prop("node-bytes-fuzz", arb_fuzz_case, tier.pick(1_200_000, 40_000_000), |c| match c.ver {
+    ctx.run_prop("node-bytes-fuzz", arb_fuzz_case, tier.pick(4_000_000, 40_000_000), |c| match c.ver {
         1 => fuzz_bytes::<V1>(c),
         2 => fuzz_bytes::<V2>(c),
         _ => fuzz_bytes::<V3>(c),
@@ -1926,7 +1926,7 @@ fn main() {
     let max_ops: usize = tier.pick(120, 600);
     let max_n0: u16 = tier.pick(130, 400);
     let max_macs: usize = tier.pick(24, 80);
-    ctx.run_prop_with("op-sequences", move || arb_seq(max_n0, max_macs), tier.pick(12_000, 100_000), 600, move |c| seq_oracle(c, max_ops));
+    ctx.run_prop_with("op-sequences", move || arb_seq(max_n0, max_macs), tier.pick(40_000, 100_000), 600, move |c| seq_oracle(c, max_ops));
     ctx.require_label_fraction("op-sequences", "nontrivial", 0.3);
     ctx.require_label_fraction("op-sequences", "v1", 0.2);
     ctx.require_label_fraction("op-sequences", "v2", 0.2);
